@@ -141,6 +141,9 @@ func runVariant(w *World, gen *GenesisSpec, h *History, v *Variant, dumpHeights 
 		attempt++
 		crashed := func(pos int) bool {
 			if attempt == 1 && v.CrashAt != nil && v.CrashAt[[2]int{bi, pos}] {
+				if os.Getenv("VH_DEBUG") != "" {
+					fmt.Fprintf(os.Stderr, "CRASH variant %s block %d pos %d\n", v.Name, bi+1, pos)
+				}
 				rep.Crash()
 				tr.Restarts++
 				ih, ihash := rep.Info()
@@ -180,6 +183,9 @@ func runVariant(w *World, gen *GenesisSpec, h *History, v *Variant, dumpHeights 
 		lastH = rep.H
 		check(bi, 1001)
 		if attempt == 1 && v.CrashAt != nil && v.CrashAt[[2]int{bi, 1001}] {
+			if os.Getenv("VH_DEBUG") != "" {
+				fmt.Fprintf(os.Stderr, "CRASH variant %s after commit of block %d\n", v.Name, bi+1)
+			}
 			rep.Crash()
 			tr.Restarts++
 			ih, ihash := rep.Info()
@@ -312,6 +318,11 @@ func genesisVariant(w *World, name string) *GenesisSpec {
 		g.Customize = customizeMature(w)
 	case "pending": // pending network undelegations loaded at genesis
 		g.Customize = customizePending(w)
+	case "eth": // Ethereum chain driver + the genesis validators as witnesses (scenario ethlock)
+		g.Customize = customizeEth(w)
+		for _, v := range w.Vals {
+			g.Funded = append(g.Funded, v.Val.Addr)
+		}
 	}
 	return g
 }
@@ -351,7 +362,7 @@ func twinMain(args []string) int {
 		gens := []string{"default", "default", "mature", "pending"}
 		if *withScen {
 			for _, sn := range scenarioNames {
-				jobs = append(jobs, job{"default", scenarioHistory(sn, w), r.Int63()})
+				jobs = append(jobs, job{scenarioGenesis(sn), scenarioHistory(sn, w), r.Int63()})
 			}
 		}
 		for i := 0; i < *nh; i++ {
